@@ -323,4 +323,228 @@ theorem expandCodes_single' (c : Char) (hc : isCode c = true) (hnd : c.isDigit =
   cases expandCodes cs none <;> rfl
 
 
+
+theorem structSpec_size (e c : Char) (s : Spec) (h : structSpec e c = some s) :
+    0 < s.size ∧ ((structKindSize c).map (·.2)).getD 0 = s.size ∧ structKindSize c = some (s.kind, s.size) ∧
+    (s.kind = .float → (s.size = 2 ∨ s.size = 4 ∨ s.size = 8)) := by
+  unfold structSpec at h
+  split at h
+  · rename_i o k n ho hk
+    injection h with h; subst h
+    simp only [hk, Option.map_some, Option.getD_some, true_and]
+    unfold structKindSize at hk
+    split at hk <;> cases hk <;> simp
+  · cases h
+
+/-- SPEC-level length of `struct.pack`. -/
+theorem structPack_length (e : Char) (codes : List Char) (vals : List Val) (x : List Nat)
+    (h : Struct.pack e codes vals = .ok x) : x.length = standardCalcsize codes ∧ ∀ y ∈ x, y < 256 := by
+  induction codes generalizing vals x with
+  | nil =>
+    cases vals with
+    | nil => simp only [Struct.pack] at h; injection h with h; subst h; simp [standardCalcsize]
+    | cons v vs => simp [Struct.pack] at h
+  | cons c cs ih =>
+    cases vals with
+    | nil => simp [Struct.pack] at h
+    | cons v vs =>
+      simp only [Struct.pack] at h
+      split at h
+      · cases h
+      · rename_i s hs
+        obtain ⟨hpos, hsz, _, _⟩ := structSpec_size e c s hs
+        cases hp : Struct.pack1 s v with
+        | error err => simp [hp, bind, Except.bind] at h
+        | ok x1 =>
+          cases hr : Struct.pack e cs vs with
+          | error err => simp [hp, hr, bind, Except.bind] at h
+          | ok r =>
+            simp only [hp, hr, bind, Except.bind, pure, Except.pure] at h
+            injection h with h; subst h
+            obtain ⟨l1, b1⟩ := pack1_length s hpos v x1 hp
+            obtain ⟨l2, b2⟩ := ih vs r hr
+            refine ⟨?_, ?_⟩
+            · simp only [List.length_append, l1, l2, standardCalcsize, List.map_cons, List.sum_cons, hsz]
+            · intro y hy
+              rcases List.mem_append.mp hy with h | h
+              · exact b1 y h
+              · exact b2 y h
+
+theorem pack_length' (e : Char) (he : e ∈ specEndians) (codes : List Char) (hc : ∀ c ∈ codes, c ∈ specCodes)
+    (vals : List Val) (bits : Bits) (h : (structparser e codes).bind (packTokens · vals) = .ok bits) :
+    bits.length = 8 * standardCalcsize codes := by
+  have := pack_struct_eq' e he codes hc vals
+  rw [h] at this
+  cases hp : Struct.pack e codes vals with
+  | error err => simp [hp, Except.map, Except.toOption] at this
+  | ok x =>
+    simp only [hp, Except.map, Except.toOption, Option.some.injEq] at this
+    subst this
+    simp [(structPack_length e codes vals x hp).1]
+
+theorem bitsOfBytes_drop (d : List Nat) (k : Nat) : (bitsOfBytes d).drop (8 * k) = bitsOfBytes (d.drop k) := by
+  induction d generalizing k with
+  | nil => simp [bitsOfBytes]
+  | cons x d ih =>
+    cases k with
+    | zero => simp
+    | succ k =>
+      rw [bitsOfBytes_cons, show 8 * (k + 1) = 8 + 8 * k by omega, ← List.drop_drop]
+      rw [List.drop_left' (by simp)]
+      simpa using ih k
+
+theorem bitsOfBytes_take (d : List Nat) (k : Nat) : (bitsOfBytes d).take (8 * k) = bitsOfBytes (d.take k) := by
+  induction d generalizing k with
+  | nil => simp [bitsOfBytes]
+  | cons x d ih =>
+    cases k with
+    | zero => simp [bitsOfBytes]
+    | succ k =>
+      rw [bitsOfBytes_cons, show 8 * (k + 1) = 8 + 8 * k by omega]
+      rw [List.take_append, List.take_of_length_le (by simp)]
+      simp [ih k, bitsOfBytes_cons]
+
+
+
+theorem readTokens_eq (e : Char) (he : e ∈ specEndians) (codes : List Char) (hc : ∀ c ∈ codes, c ∈ specCodes)
+    (d : List Nat) (hd : ∀ y ∈ d, y < 256) (k : Nat) :
+    (readTokens (codes.map (tok e)) (bitsOfBytes d) (8 * k)).toOption
+      = (Struct.unpack e codes (d.drop k)).toOption := by
+  induction codes generalizing k with
+  | nil => simp [readTokens, Struct.unpack, Except.toOption]
+  | cons c cs ih =>
+    obtain ⟨name, len, s, h1, h2, h3, h4, h5, h6, _⟩ := token_info e c he (hc c List.mem_cons_self)
+    have hi := ih (fun x hx => hc x (List.mem_cons_of_mem _ hx)) (k + s.size)
+    simp only [List.map_cons, tok, h1, Option.getD_some, readTokens, h3, Struct.unpack, h2, readFn,
+      bitsOfBytes_length, List.length_drop]
+    have hlen : (nativeDtype s).length = 8 * s.size := rfl
+    rw [hlen]
+    by_cases hshort : d.length - k < s.size
+    · rw [if_pos (by omega), if_pos hshort]
+      simp [Except.toOption]
+    · rw [if_neg (by omega), if_neg hshort]
+      have hitem : ((bitsOfBytes d).drop (8 * k)).take (8 * s.size) = bitsOfBytes ((d.drop k).take s.size) := by
+        rw [bitsOfBytes_drop, bitsOfBytes_take]
+      rw [hitem]
+      have hg := getFn_nativeDtype s h4 h6 ((d.drop k).take s.size) (by simp; omega)
+        (fun y hy => hd y (List.mem_of_mem_drop (List.mem_of_mem_take hy)))
+      rw [hg, h5, show 8 * k + 8 * s.size = 8 * (k + s.size) by omega]
+      rw [List.drop_drop] 
+      cases hr : Struct.unpack e cs (d.drop (k + s.size)) with
+      | error err =>
+        rw [hr] at hi
+        obtain ⟨e', he'⟩ := (toOption_none_iff _).mp hi
+        simp [he', Except.toOption, bind, Except.bind]
+      | ok r =>
+        rw [hr] at hi
+        have hi' := (toOption_ok_iff _ _).mp hi
+        simp [hi', Except.toOption, bind, Except.bind, pure, Except.pure]
+
+theorem unpack_struct_eq' (e : Char) (he : e ∈ specEndians) (codes : List Char) (hc : ∀ c ∈ codes, c ∈ specCodes)
+    (b : Bits) (h8 : b.length % 8 = 0) :
+    ((structparser e codes).bind (readTokens · b 0)).toOption = (Struct.unpack e codes (toBytes b)).toOption := by
+  rw [structparser_eq e he codes hc]
+  have := readTokens_eq e he codes hc (toBytes b) (toBytes_lt b h8) 0
+  rw [bitsOfBytes_toBytes' b h8] at this
+  simpa [Except.bind] using this
+
+
+/-- Decomposition of a successful `Struct.pack` of a non-empty format. -/
+theorem structPack_cons (e c : Char) (cs : List Char) (vals : List Val) (x : List Nat)
+    (h : Struct.pack e (c :: cs) vals = .ok x) :
+    ∃ v vs s x1 r, vals = v :: vs ∧ structSpec e c = some s ∧ Struct.pack1 s v = .ok x1 ∧
+      Struct.pack e cs vs = .ok r ∧ x = x1 ++ r := by
+  cases vals with
+  | nil => simp [Struct.pack] at h
+  | cons v vs =>
+    simp only [Struct.pack] at h
+    split at h
+    · cases h
+    · rename_i s hs
+      cases hp : Struct.pack1 s v with
+      | error err => simp [hp, bind, Except.bind] at h
+      | ok x1 =>
+        cases hr : Struct.pack e cs vs with
+        | error err => simp [hp, hr, bind, Except.bind] at h
+        | ok r =>
+          simp only [hp, hr, bind, Except.bind, pure, Except.pure] at h
+          injection h with h
+          exact ⟨v, vs, s, x1, r, rfl, hs, hp, hr, h.symm⟩
+
+theorem item_finite (e c : Char) (s : Spec) (hs : structSpec e c = some s) (v : Val) (h : valFinite c v = true) :
+    s.kind = .float → ∀ p, v = .flt p → Struct.isNaN s.size p = false := by
+  intro hk p hv
+  obtain ⟨_, _, hks, _⟩ := structSpec_size e c s hs
+  subst hv
+  rw [hk] at hks
+  exact valFinite_float c s.size p hks h
+
+theorem struct_unpack_pack' (e : Char) (codes : List Char) (vals : List Val) (hfin : valsFinite codes vals = true)
+    (d rest : List Nat) (h : Struct.pack e codes vals = .ok d) :
+    Struct.unpack e codes (d ++ rest) = .ok vals := by
+  induction codes generalizing vals d with
+  | nil =>
+    cases vals with
+    | nil => simp [Struct.unpack]
+    | cons v vs => simp [Struct.pack] at h
+  | cons c cs ih =>
+    obtain ⟨v, vs, s, x1, r, rfl, hs, hp, hr, rfl⟩ := structPack_cons e c cs vals d h
+    simp only [valsFinite, Bool.and_eq_true] at hfin
+    obtain ⟨hpos, _, _, _⟩ := structSpec_size e c s hs
+    obtain ⟨l1, _⟩ := pack1_length s hpos v x1 hp
+    have hu := unpack1_pack1 s hpos v x1 hp (item_finite e c s hs v hfin.1)
+    simp only [Struct.unpack, hs, List.length_append, l1]
+    rw [if_neg (by omega)]
+    have ht : (x1 ++ r ++ rest).take s.size = x1 := by
+      rw [List.append_assoc, List.take_left' l1]
+    have hd : (x1 ++ r ++ rest).drop s.size = r ++ rest := by
+      rw [List.append_assoc, List.drop_left' l1]
+    rw [ht, hd, ih vs hfin.2 r hr, hu]
+    rfl
+
+theorem readTokens_packed (e : Char) (he : e ∈ specEndians) (codes : List Char) (hc : ∀ c ∈ codes, c ∈ specCodes)
+    (vals : List Val) (hfin : valsFinite codes vals = true) (x : List Nat) (hpack : Struct.pack e codes vals = .ok x)
+    (pre rest : Bits) :
+    readTokens (codes.map (tok e)) (pre ++ bitsOfBytes x ++ rest) pre.length = .ok vals := by
+  induction codes generalizing vals x pre with
+  | nil =>
+    cases vals with
+    | nil => simp [readTokens]
+    | cons v vs => simp [Struct.pack] at hpack
+  | cons c cs ih =>
+    obtain ⟨v, vs, s, x1, r, rfl, hs, hp, hr, rfl⟩ := structPack_cons e c cs vals x hpack
+    obtain ⟨name, len, s', h1, h2, h3, h4, h5, h6, _⟩ := token_info e c he (hc c List.mem_cons_self)
+    rw [hs] at h2; injection h2 with h2; subst h2
+    simp only [valsFinite, Bool.and_eq_true] at hfin
+    obtain ⟨l1, b1⟩ := pack1_length s h4 v x1 hp
+    have hu := unpack1_pack1 s h4 v x1 hp (item_finite e c s hs v hfin.1)
+    have hlen : (nativeDtype s).length = 8 * s.size := rfl
+    simp only [List.map_cons, tok, h1, Option.getD_some, readTokens, h3, readFn, hlen]
+    rw [if_neg (by simp [bitsOfBytes_append, l1])]
+    have hitem : ((pre ++ bitsOfBytes (x1 ++ r) ++ rest).drop pre.length).take (8 * s.size) = bitsOfBytes x1 := by
+      rw [List.append_assoc, List.drop_left' rfl, bitsOfBytes_append, List.append_assoc,
+        List.take_left' (by simp [l1])]
+    rw [hitem, getFn_nativeDtype s h4 h6 x1 l1 b1, hu]
+    have hrec := ih (fun y hy => hc y (List.mem_cons_of_mem _ hy)) vs hfin.2 r hr (pre ++ bitsOfBytes x1)
+    have e1 : pre ++ bitsOfBytes (x1 ++ r) ++ rest = pre ++ bitsOfBytes x1 ++ bitsOfBytes r ++ rest := by
+      simp [bitsOfBytes_append, List.append_assoc]
+    have e2 : pre.length + len = (pre ++ bitsOfBytes x1).length := by simp [l1, h5]
+    rw [e1, e2, hrec]
+
+theorem unpack_inverts' (e : Char) (he : e ∈ specEndians) (codes : List Char) (hc : ∀ c ∈ codes, c ∈ specCodes)
+    (vals : List Val) (hfin : valsFinite codes vals = true) (bits rest : Bits)
+    (h : (structparser e codes).bind (packTokens · vals) = .ok bits) :
+    (structparser e codes).bind (readTokens · (bits ++ rest) 0) = .ok vals := by
+  have hp := pack_struct_eq' e he codes hc vals
+  rw [h] at hp
+  cases hx : Struct.pack e codes vals with
+  | error err => simp [hx, Except.map, Except.toOption] at hp
+  | ok x =>
+    simp only [hx, Except.map, Except.toOption, Option.some.injEq] at hp
+    subst hp
+    rw [structparser_eq e he codes hc]
+    have := readTokens_packed e he codes hc vals hfin x hx [] rest
+    simpa [Except.bind] using this
+
+
 end BM.C18
